@@ -1745,6 +1745,12 @@ def _contains_dash_test(fn):
             for e in (n.left, n.comparators[0]):
                 if isinstance(e, ast.Constant) and e.value == '-':
                     return True
+        if isinstance(n, ast.Compare) and len(n.ops) == 1 and isinstance(n.ops[0], ast.In):
+            c = n.comparators[0]
+            if isinstance(c, ast.Constant) and isinstance(c.value, str) and '-' in c.value and len(c.value) <= 4:
+                return True
+            if isinstance(c, (ast.List, ast.Tuple, ast.Set)) and any(isinstance(e, ast.Constant) and e.value == '-' for e in c.elts):
+                return True
     return False
 
 
@@ -1880,3 +1886,620 @@ _run_before_index_sign = run
 def run(chk):       # noqa: F811
     _run_before_index_sign(chk)
     rule_index_domain_and_sign(chk)
+
+
+# ---------------------------------------------------------------------------------------------------------------
+# Interpreter for the string / number manipulating subset of Python (same as the one C13 uses for drop_leading_zeros;
+# copied here because c13 imports this module) and its extension for the digit parser (Decimal arithmetic, configuration
+# attributes).
+
+_STR_OK = {'replace', 'rstrip', 'lstrip', 'strip', 'split', 'rsplit', 'join', 'upper', 'lower', 'startswith', 'endswith',
+           'partition', 'rpartition', 'find', 'rfind', 'index', 'count', 'isdigit', 'isalpha', 'isalnum', 'zfill', 'rjust',
+           'ljust', 'removeprefix', 'removesuffix', 'format'}
+_LIST_OK = {'append', 'extend', 'pop', 'insert', 'reverse', 'index', 'count', 'copy'}
+
+
+class _Ret(Exception):
+    def __init__(self, v):
+        self.v = v
+
+
+class _Brk(Exception):
+    pass
+
+
+class _Cont(Exception):
+    pass
+
+
+class MiniInterp:
+    """interpreter for the string-manipulating subset of Python the canonicaliser is written in"""
+
+    def __init__(self, idx, cls, where):
+        self.idx, self.cls, self.where = idx, cls, where
+        self.budget = 200000
+
+    def fail(self, n, what):
+        raise AnalysisError('%s:%s not understood by the canonicalisation interpreter: %s'
+                            % (self.where, getattr(n, 'lineno', '?'), what))
+
+    def call(self, fn, args, depth=0):
+        if depth > 6:
+            self.fail(fn, 'helper recursion too deep')
+        params = [a.arg for a in fn.args.args]
+        if params and params[0] in ('self', 'cls'):
+            params = params[1:]
+        if fn.args.vararg or fn.args.kwarg or fn.args.kwonlyargs:
+            self.fail(fn, 'parameter kinds of %s' % fn.name)
+        defaults = fn.args.defaults
+        env = {}
+        for i, p in enumerate(params):
+            if i < len(args):
+                env[p] = args[i]
+            else:
+                j = i - (len(params) - len(defaults))
+                if j < 0:
+                    self.fail(fn, 'missing argument %s of %s' % (p, fn.name))
+                env[p] = self.ev(defaults[j], {}, depth)
+        try:
+            self.run(fn.body, env, depth)
+        except _Ret as r:
+            return r.v
+        return None
+
+    def helper(self, f):
+        """same-class helper: self.m / cls.m / ClassName.m"""
+        if isinstance(f, ast.Attribute) and isinstance(f.value, ast.Name):
+            names = {'self', 'cls'} | {k.name for k in self.idx.mro(self.cls)}
+            if f.value.id in names:
+                _k, fn = self.idx.find_method(self.cls, f.attr)
+                return fn
+        return None
+
+    def run(self, stmts, env, depth):
+        for st in _strip_doc(stmts):
+            self.budget -= 1
+            if self.budget < 0:
+                self.fail(st, 'step budget exhausted (non-terminating loop?)')
+            if isinstance(st, ast.Assign) and len(st.targets) == 1:
+                self.assign(st.targets[0], self.ev(st.value, env, depth), env, depth)
+            elif isinstance(st, ast.AnnAssign) and st.value is not None:
+                self.assign(st.target, self.ev(st.value, env, depth), env, depth)
+            elif isinstance(st, ast.AugAssign) and isinstance(st.target, ast.Name):
+                cur = self.ev(st.target, env, depth)
+                env[st.target.id] = self.binop(st, st.op, cur, self.ev(st.value, env, depth))
+            elif isinstance(st, ast.If):
+                self.run(st.body if self.ev(st.test, env, depth) else st.orelse, env, depth)
+            elif isinstance(st, ast.For):
+                it = self.ev(st.iter, env, depth)
+                if not isinstance(it, (str, list, range)):
+                    self.fail(st, 'loop over ' + ast.unparse(st.iter))
+                broke = False
+                for x in list(it):
+                    self.assign(st.target, x, env, depth)
+                    try:
+                        self.run(st.body, env, depth)
+                    except _Brk:
+                        broke = True
+                        break
+                    except _Cont:
+                        continue
+                if not broke:
+                    self.run(st.orelse, env, depth)
+            elif isinstance(st, ast.While):
+                while self.ev(st.test, env, depth):
+                    self.budget -= 1
+                    if self.budget < 0:
+                        self.fail(st, 'step budget exhausted (non-terminating loop?)')
+                    try:
+                        self.run(st.body, env, depth)
+                    except _Brk:
+                        break
+                    except _Cont:
+                        continue
+            elif isinstance(st, ast.Return):
+                raise _Ret(self.ev(st.value, env, depth) if st.value is not None else None)
+            elif isinstance(st, ast.Break):
+                raise _Brk()
+            elif isinstance(st, ast.Continue):
+                raise _Cont()
+            elif isinstance(st, ast.Pass):
+                continue
+            elif isinstance(st, ast.Expr):
+                self.ev(st.value, env, depth)
+            else:
+                self.fail(st, 'statement ' + type(st).__name__)
+
+    def assign(self, tgt, val, env, depth):
+        if isinstance(tgt, ast.Name):
+            env[tgt.id] = val
+        elif isinstance(tgt, (ast.Tuple, ast.List)) and isinstance(val, (list, tuple)) and len(val) == len(tgt.elts):
+            for t, v in zip(tgt.elts, val):
+                self.assign(t, v, env, depth)
+        elif isinstance(tgt, ast.Subscript) and not isinstance(tgt.slice, ast.Slice):
+            base = self.ev(tgt.value, env, depth)
+            if not isinstance(base, list):
+                self.fail(tgt, 'store into ' + ast.unparse(tgt))
+            try:
+                base[self.ev(tgt.slice, env, depth)] = val
+            except (IndexError, TypeError):
+                self.fail(tgt, 'index error in ' + ast.unparse(tgt))
+        else:
+            self.fail(tgt, 'assignment target ' + ast.unparse(tgt))
+
+    def binop(self, n, op, a, b):
+        try:
+            if isinstance(op, ast.Add) and type(a) is type(b) and isinstance(a, (str, list, int)) and not isinstance(a, bool):
+                return a + b
+            if isinstance(a, int) and isinstance(b, int) and not isinstance(a, bool) and not isinstance(b, bool):
+                if isinstance(op, ast.Sub):
+                    return a - b
+                if isinstance(op, ast.Mult):
+                    return a * b
+                if isinstance(op, ast.FloorDiv) and b:
+                    return a // b
+                if isinstance(op, ast.Mod) and b:
+                    return a % b
+            if isinstance(op, ast.Mult) and isinstance(a, str) and isinstance(b, int):
+                return a * min(b, 64)
+        except TypeError:
+            pass
+        self.fail(n, 'operator in ' + ast.unparse(n)[:60])
+
+    def ev(self, n, env, depth):
+        self.budget -= 1
+        if self.budget < 0:
+            self.fail(n, 'step budget exhausted')
+        if isinstance(n, ast.Constant):
+            return n.value
+        if isinstance(n, ast.Name):
+            if n.id in env:
+                return env[n.id]
+            self.fail(n, 'name ' + n.id)
+        if isinstance(n, (ast.List, ast.Tuple)):
+            return [self.ev(e, env, depth) for e in n.elts]
+        if isinstance(n, ast.JoinedStr):
+            out = ''
+            for p in n.values:
+                if isinstance(p, ast.Constant):
+                    out += str(p.value)
+                elif isinstance(p, ast.FormattedValue) and p.conversion == -1 and p.format_spec is None:
+                    v = self.ev(p.value, env, depth)
+                    if not isinstance(v, (str, int)):
+                        self.fail(n, 'f-string value')
+                    out += str(v)
+                else:
+                    self.fail(n, 'format spec')
+            return out
+        if isinstance(n, ast.BinOp):
+            return self.binop(n, n.op, self.ev(n.left, env, depth), self.ev(n.right, env, depth))
+        if isinstance(n, ast.BoolOp):
+            v = None
+            for x in n.values:
+                v = self.ev(x, env, depth)
+                if isinstance(n.op, ast.And) and not v:
+                    return v
+                if isinstance(n.op, ast.Or) and v:
+                    return v
+            return v
+        if isinstance(n, ast.UnaryOp):
+            v = self.ev(n.operand, env, depth)
+            if isinstance(n.op, ast.Not):
+                return not v
+            if isinstance(n.op, ast.USub) and isinstance(v, int):
+                return -v
+            self.fail(n, ast.unparse(n))
+        if isinstance(n, ast.IfExp):
+            return self.ev(n.body, env, depth) if self.ev(n.test, env, depth) else self.ev(n.orelse, env, depth)
+        if isinstance(n, ast.Compare):
+            left = self.ev(n.left, env, depth)
+            for op, c in zip(n.ops, n.comparators):
+                right = self.ev(c, env, depth)
+                try:
+                    if isinstance(op, ast.Eq):
+                        r = left == right
+                    elif isinstance(op, ast.NotEq):
+                        r = left != right
+                    elif isinstance(op, ast.In):
+                        r = left in right
+                    elif isinstance(op, ast.NotIn):
+                        r = left not in right
+                    elif isinstance(op, ast.Is):
+                        r = left is right
+                    elif isinstance(op, ast.IsNot):
+                        r = left is not right
+                    elif isinstance(op, ast.Lt):
+                        r = left < right
+                    elif isinstance(op, ast.LtE):
+                        r = left <= right
+                    elif isinstance(op, ast.Gt):
+                        r = left > right
+                    elif isinstance(op, ast.GtE):
+                        r = left >= right
+                    else:
+                        self.fail(n, ast.unparse(n))
+                except TypeError:
+                    self.fail(n, 'comparison ' + ast.unparse(n))
+                if not r:
+                    return False
+                left = right
+            return True
+        if isinstance(n, ast.Subscript):
+            base = self.ev(n.value, env, depth)
+            if not isinstance(base, (str, list)):
+                self.fail(n, ast.unparse(n))
+            try:
+                if isinstance(n.slice, ast.Slice):
+                    lo = self.ev(n.slice.lower, env, depth) if n.slice.lower is not None else None
+                    hi = self.ev(n.slice.upper, env, depth) if n.slice.upper is not None else None
+                    st = self.ev(n.slice.step, env, depth) if n.slice.step is not None else None
+                    return base[lo:hi:st]
+                return base[self.ev(n.slice, env, depth)]
+            except (IndexError, TypeError, ValueError):
+                self.fail(n, 'index error in ' + ast.unparse(n))
+        if isinstance(n, (ast.ListComp, ast.GeneratorExp)):
+            if len(n.generators) != 1 or n.generators[0].is_async:
+                self.fail(n, 'comprehension shape')
+            g = n.generators[0]
+            it = self.ev(g.iter, env, depth)
+            if not isinstance(it, (str, list, range)):
+                self.fail(n, 'comprehension over ' + ast.unparse(g.iter))
+            out = []
+            inner = dict(env)
+            for x in list(it):
+                self.assign(g.target, x, inner, depth)
+                if all(self.ev(c, inner, depth) for c in g.ifs):
+                    out.append(self.ev(n.elt, inner, depth))
+            return out
+        if isinstance(n, ast.Call):
+            return self.evcall(n, env, depth)
+        self.fail(n, type(n).__name__)
+
+    def evcall(self, n, env, depth):
+        f = n.func
+        if n.keywords:
+            self.fail(n, 'keyword arguments in ' + ast.unparse(n)[:60])
+        hf = self.helper(f)
+        if hf is not None:
+            return self.call(hf, [self.ev(a, env, depth) for a in n.args], depth + 1)
+        args = [self.ev(a, env, depth) for a in n.args]
+        if isinstance(f, ast.Name):
+            try:
+                if f.id == 'len' and len(args) == 1 and isinstance(args[0], (str, list, range)):
+                    return len(args[0])
+                if f.id == 'str' and len(args) == 1 and isinstance(args[0], (str, int)):
+                    return str(args[0])
+                if f.id == 'int' and 1 <= len(args) <= 2 and isinstance(args[0], (str, int)):
+                    return int(*args)
+                if f.id == 'range' and 1 <= len(args) <= 3 and all(isinstance(a, int) for a in args):
+                    r = range(*args)
+                    if len(r) > 10000:
+                        self.fail(n, 'range too long')
+                    return r
+                if f.id == 'enumerate' and len(args) == 1 and isinstance(args[0], (str, list, range)):
+                    return [[i, x] for i, x in enumerate(args[0])]
+                if f.id in ('list', 'tuple') and len(args) <= 1:
+                    return list(args[0]) if args else []
+                if f.id == 'reversed' and len(args) == 1 and isinstance(args[0], (str, list, range)):
+                    return list(reversed(args[0]))
+                if f.id == 'zip' and all(isinstance(a, (str, list, range)) for a in args):
+                    return [list(t) for t in zip(*args)]
+                if f.id in ('min', 'max') and args and all(isinstance(a, int) for a in args):
+                    return (min if f.id == 'min' else max)(args)
+                if f.id == 'bool' and len(args) == 1:
+                    return bool(args[0])
+            except (TypeError, ValueError):
+                self.fail(n, 'error evaluating ' + ast.unparse(n)[:60])
+            self.fail(n, 'call ' + ast.unparse(n)[:60])
+        if isinstance(f, ast.Attribute):
+            if isinstance(f.value, ast.Name) and f.value.id == 'str' and f.attr in _STR_OK and args and isinstance(args[0], str):
+                recv, args = args[0], args[1:]
+            else:
+                recv = self.ev(f.value, env, depth)
+            try:
+                if isinstance(recv, str) and f.attr in _STR_OK:
+                    r = getattr(recv, f.attr)(*args)
+                    return list(r) if isinstance(r, tuple) else r
+                if isinstance(recv, list) and f.attr in _LIST_OK:
+                    return getattr(recv, f.attr)(*args)
+            except (TypeError, ValueError, IndexError):
+                self.fail(n, 'error evaluating ' + ast.unparse(n)[:60])
+        self.fail(n, 'call ' + ast.unparse(n)[:60])
+
+
+
+
+class DigitInterp(MiniInterp):
+    """MiniInterp + Decimal arithmetic (precision 15, as the @precision decorator sets it) + attribute values"""
+
+    def __init__(self, idx, cls, where, attrs, evaluator):
+        MiniInterp.__init__(self, idx, cls, where)
+        self.attrs = attrs
+        self.evaluator = evaluator
+        import decimal
+        self.decimal = decimal
+        self.ctx = decimal.Context(prec=15)
+
+    def binop(self, n, op, a, b):
+        D = self.decimal.Decimal
+        if isinstance(a, D) or isinstance(b, D):
+            if all(isinstance(x, (D, int)) and not isinstance(x, bool) for x in (a, b)):
+                a, b = D(a), D(b)
+                if isinstance(op, ast.Add):
+                    return self.ctx.add(a, b)
+                if isinstance(op, ast.Sub):
+                    return self.ctx.subtract(a, b)
+                if isinstance(op, ast.Mult):
+                    return self.ctx.multiply(a, b)
+                if isinstance(op, ast.Div) and b != 0:
+                    return self.ctx.divide(a, b)
+            self.fail(n, 'Decimal operator in ' + ast.unparse(n)[:60])
+        return MiniInterp.binop(self, n, op, a, b)
+
+    def ev(self, n, env, depth):
+        if isinstance(n, ast.Attribute):
+            d = dotted(n)
+            if d in self.attrs:
+                return self.attrs[d]
+            if isinstance(n.value, ast.Name):
+                c = self.idx.resolve_class(self.cls.mod, n.value)
+                if c is not None:
+                    try:
+                        return self.evaluator.class_const(c, n.attr)
+                    except Unresolved:
+                        pass
+            self.fail(n, 'attribute ' + ast.unparse(n))
+        if isinstance(n, ast.UnaryOp) and isinstance(n.op, ast.USub):
+            v = self.ev(n.operand, env, depth)
+            if isinstance(v, self.decimal.Decimal):
+                return self.ctx.minus(v)
+            if isinstance(v, int) and not isinstance(v, bool):
+                return -v
+            self.fail(n, ast.unparse(n))
+        return MiniInterp.ev(self, n, env, depth)
+
+    def evcall(self, n, env, depth):
+        f = n.func
+        D = self.decimal.Decimal
+        if isinstance(f, ast.Name) and f.id == 'Decimal' and len(n.args) == 1 and not n.keywords:
+            v = self.ev(n.args[0], env, depth)
+            if isinstance(v, (int, float, str, D)) and not isinstance(v, bool):
+                try:
+                    return D(v)
+                except self.decimal.InvalidOperation:
+                    self.fail(n, 'Decimal(%r)' % (v,))
+        if isinstance(f, ast.Attribute) and isinstance(f.value, ast.Call) and isinstance(f.value.func, ast.Name) \
+                and f.value.func.id == 'getcontext' and f.attr in ('add', 'subtract', 'multiply', 'divide') and len(n.args) == 2:
+            a, b = (self.ev(x, env, depth) for x in n.args)
+            if all(isinstance(x, (D, int)) and not isinstance(x, bool) for x in (a, b)):
+                try:
+                    return getattr(self.ctx, f.attr)(D(a), D(b))
+                except (self.decimal.InvalidOperation, self.decimal.DivisionByZero):
+                    self.fail(n, 'arithmetic error in ' + ast.unparse(n)[:60])
+        return MiniInterp.evcall(self, n, env, depth)
+
+
+# ---------------------------------------------------------------------------------------------------------------
+# C03.sign-invariance / C03.digital-value  : BaseNumberParser._get_digital_value (+ helpers) interpreted per culture
+#                                            configuration on probe literals
+# C03.grouped / C03.grouped.percent        : the culture's grouped / decimal literal is ONE match of a digit pattern the
+#                                            registered extractor wires (regex-language membership, L+)
+
+def _mark_probes(a, b, g, d):
+    out = []
+    for m in (a, b):
+        if isinstance(m, str) and m.strip():
+            out += [t.replace('M', m) for t in ('1M5', '0M5', '12M34', '1M234', '12M345', '123M456', '0M123', '1234M5', '100M000')]
+    if g.strip():
+        out += [t.replace('G', g).replace('D', d) for t in ('1G234G567', '123G456G789', '1G234D5', '123G456D78', '12G345G678D25')]
+    seen, res = set(), []
+    for x in out:
+        if x not in seen:
+            seen.add(x)
+            res.append(x)
+    return res
+
+
+def _rx_escape(ch):
+    return ''.join('\\' + c if c in '.^$*+?{}[]\\|() ' else c for c in ch)
+
+
+def rule_digit_parser(chk):
+    import sys as _sys
+    from .. import rx
+    from decimal import Decimal
+    ev = Ev()
+    idx = ev.idx
+    chk.rule('C03.sign-invariance', 'the digit parser values a literal with a leading \'-\' / \'- \' as the negative of the unsigned literal '
+                                    '(interpreted per culture configuration)', floor=8, control=True)
+    chk.rule('C03.digital-value', 'the digit parser values the culture\'s canonical plain / grouped / decimal literals correctly', floor=8,
+             control=True)
+    chk.rule('C03.grouped', 'the culture\'s plain / grouped / decimal digit literal is one match of a digit pattern of the registered '
+                            'number extractor', floor=8, control=True)
+    chk.rule('C03.grouped.percent', 'the same literals followed by % are one match of the registered percentage extractor', floor=12,
+             control=True)
+    regs = number_registrations(ev)
+    bnp = idx.cls('recognizers_number.number.parsers.BaseNumberParser')
+    gdv = bnp.methods.get('_get_digital_value')
+    if gdv is None:
+        raise AnalysisError('anchor vanished: BaseNumberParser._get_digital_value')
+    lfm_cls, modes = long_format_table(ev)
+    _cm, supported = supported_cultures(ev, modes)
+    table, _variant = separator_selection(gdv)
+    variant_attr = _variant
+    bn = idx.cls('recognizers_number.resources.base_numbers.BaseNumbers')
+    bvals = ev.R.values(bn)
+    for need in ('IntegerRegexDefinition', 'DoubleRegexDefinition', 'NumberReplaceToken'):
+        if need not in bvals:
+            raise AnalysisError('anchor vanished: BaseNumbers.%s' % need)
+    token = bvals['NumberReplaceToken']
+
+    def marks_of(code):
+        mode = supported.get(code, (None, None))[0]
+        if mode is None:
+            return ',', '.'
+        th, dec, _l = modes[mode]
+        return th, (dec if dec is not None else '.')
+
+    def digit_patterns(ecls):
+        """evaluated patterns of the extractor closure that lead to the digit parser ('Num' in the tag)"""
+        out = []
+        for rv in extractor_closure(ev, ecls):
+            if not (isinstance(rv.tag, str) and 'Num' in rv.tag):
+                continue
+            pat = None
+            if rv.kind == 'resource':
+                pat = rv.pattern
+            elif rv.kind == 'format' and rv.mode in modes:
+                th, dec, _l = modes[rv.mode]
+                if dec is None:
+                    pat = bvals['IntegerRegexDefinition'].fill('\\b', _rx_escape(th))
+                else:
+                    pat = bvals['DoubleRegexDefinition'].fill('\\b', _rx_escape(th), _rx_escape(dec))
+            if pat is None:
+                continue
+            try:
+                out.append((rv, rx.parse(pat)))
+            except rx.RxUnsupported:
+                continue
+            except rx.RxError as e:
+                raise AnalysisError('%s:%d pattern %s not parsable: %s' % (rv.cls.mod.rel, rv.line, rv.name or rv.expr, e))
+        return out
+
+    seen_cfg = set()
+    pat_cache = {}
+    for nr in regs:
+        r = nr.reg
+        code = r.culture
+        if r.model_cls.name == 'NumberModel' and (nr.config_cls.qual, code) not in seen_cfg:
+            seen_cfg.add((nr.config_cls.qual, code))
+            cfg = nr.config_cls
+            vals = {}
+            for s in SEP_SLOTS + ('is_multi_decimal_separator_culture', 'non_standard_separator_variants'):
+                sl = slot(ev, cfg, s)
+                if sl.value is None and sl.origin.startswith('unresolved'):
+                    raise AnalysisError('%s.%s wiring not evaluable (%s)' % (cfg.name, s, sl.origin))
+                vals[s] = sl.value
+            ccode = culture_info_code(ev, cfg, nr.config_call, r.mod)[0]
+            multi = bool(vals['is_multi_decimal_separator_culture'])
+            variant = ccode in (vals['non_standard_separator_variants'] or [])
+            attrs = {'self.config.decimal_separator_char': vals['decimal_separator_char'],
+                     'self.config.non_decimal_separator_char': vals['non_decimal_separator_char'],
+                     'self.config.is_multi_decimal_separator_culture': multi,
+                     'self.' + variant_attr: variant, 'sys.maxsize': _sys.maxsize}
+            dslot, nslot = table[(multi, variant)]
+            d, g = vals[dslot], vals[nslot]
+            where = 'BaseNumberParser._get_digital_value[%s]' % code
+
+            def value(text):
+                v = DigitInterp(idx, bnp, where, attrs, ev).call(gdv, [text, 1])
+                if not isinstance(v, Decimal):
+                    raise AnalysisError('%s: %r does not evaluate to a Decimal' % (where, text))
+                return v
+            construct = '_get_digital_value under %s[%s]' % (cfg.name, code)
+            bad = []
+            n = 0
+            for x in _mark_probes(vals['decimal_separator_char'], vals['non_decimal_separator_char'], g, d):
+                base = value(x)
+                for prefix in ('-', '- '):
+                    n += 1
+                    got = value(prefix + x)
+                    if got != -base:
+                        bad.append('%r -> %s but %r -> %s' % (prefix + x, got, x, base))
+            chk.judge(not bad, 'C03.sign-invariance', bnp.mod.path, construct,
+                      '%d signed probes, %d differ%s' % (n, len(bad), (': ' + '; '.join(bad)) if bad else ''),
+                      'culture %s: a leading minus changes the magnitude the digit parser computes: %s (multi-decimal-separator '
+                      'heuristic: the distance from the start counts the sign)' % (code, '; '.join(bad[:6])), gdv.lineno)
+            badv = []
+            canon = ['1234', '0', '1234D5', '0D5', '100D10']
+            if g.strip() or g == ' ':
+                canon += ['1G234', '12G345', '123G456', '12G345G678', '1G234D5', '12G345G678D25', '100G000']
+            for tpl in canon:
+                x = tpl.replace('G', g).replace('D', d)
+                want = Decimal(tpl.replace('G', '').replace('D', '.'))
+                got = value(x)
+                if got != want:
+                    badv.append('%r -> %s (expected %s)' % (x, got, want))
+            chk.judge(not badv, 'C03.digital-value', bnp.mod.path, construct,
+                      '%d canonical literals (grouping %s, decimal %s), %d wrong%s' % (len(canon), show(g), show(d), len(badv),
+                                                                                      (': ' + '; '.join(badv)) if badv else ''),
+                      'culture %s: the digit parser mis-values canonical literals: %s' % (code, '; '.join(badv[:6])), gdv.lineno)
+
+        # ---- extractor language
+        th, dec = marks_of(code)
+        lits = [t.replace('G', th).replace('D', dec) for t in ('1234', '1234D5', '0D5', '1G234', '12G345G678', '123G456G789',
+                                                                  '1G234D5', '12G345G678D25')]
+        if r.model_cls.name == 'NumberModel':
+            key = nr.extractor_cls.qual
+            if key not in pat_cache:
+                pat_cache[key] = digit_patterns(nr.extractor_cls)
+            pats = pat_cache[key]
+            if not pats:
+                raise AnalysisError('%s: no digit pattern reachable from %s' % (code, nr.extractor_cls.name))
+            miss = [lit for lit in lits if not any(rx.matches(t, lit) for _rv, t in pats)]
+            chk.judge(not miss, 'C03.grouped', nr.extractor_cls.mod.path, '%s[%s]' % (nr.extractor_cls.name, code),
+                      '%d literals (grouping %s, decimal %s); not one match: %s' % (len(lits), show(th), show(dec), miss),
+                      'culture %s (grouping %s, decimal %s): no single digit pattern wired by %s matches the whole literal(s) %s, so they '
+                      'cannot be recognised as one entity' % (code, show(th), show(dec), nr.extractor_cls.name, miss), r.line)
+        elif r.model_cls.name == 'PercentModel':
+            ecls = nr.extractor_cls
+            key = ecls.qual
+            if key not in pat_cache:
+                pat_cache[key] = digit_patterns(ecls)
+            pats = pat_cache[key]
+            is_base_pct = any(k.name == 'BasePercentageExtractor' for k in idx.mro(ecls))
+            if is_base_pct:
+                k_, gd = idx.find_method(ecls, 'get_definitions')
+                if gd is None:
+                    raise AnalysisError('%s has no get_definitions' % ecls.name)
+                defs = []
+                for n_ in ast.walk(gd):
+                    if isinstance(n_, ast.Return) and isinstance(n_.value, (ast.List, ast.Tuple)):
+                        for e_ in n_.value.elts:
+                            try:
+                                defs.append(rx.parse(ev.ev(k_.mod, e_)))
+                            except (Unresolved, rx.RxError) as ex:
+                                raise AnalysisError('%s.get_definitions: %s not analysable (%s)' % (ecls.name, ast.unparse(e_), ex))
+                if not defs:
+                    raise AnalysisError('%s.get_definitions: no definitions found' % ecls.name)
+                ok_tok = any(rx.matches(t, token + '%') for t in defs)
+                chk.judge(ok_tok, 'C03.grouped.percent', ecls.mod.path, '%s[%s]: <number>%%' % (ecls.name, code),
+                          'a percentage definition matches %s%%: %s' % (token, ok_tok),
+                          'culture %s: no percentage definition of %s matches a number followed by %%' % (code, ecls.name), r.line)
+                miss = [lit + '%' for lit in lits if not any(rx.matches(t, lit) for _rv, t in pats)]
+                chk.judge(not miss, 'C03.grouped.percent', ecls.mod.path, '%s[%s]' % (ecls.name, code),
+                          '%d literals; number part not one match: %s' % (len(lits), miss),
+                          'culture %s: the number extractor inside %s has no single digit pattern matching the number part of %s, so these '
+                          'are not recognised as one percentage' % (code, ecls.name, miss), r.line)
+            else:
+                if not pats:
+                    raise AnalysisError('%s: no digit percentage pattern reachable from %s' % (code, ecls.name))
+                miss = [lit + '%' for lit in lits if not any(rx.matches(t, lit + '%') for _rv, t in pats)]
+                chk.judge(not miss, 'C03.grouped.percent', ecls.mod.path, '%s[%s]' % (ecls.name, code),
+                          '%d literals (grouping %s, decimal %s); not one match: %s' % (len(lits), show(th), show(dec), miss),
+                          'culture %s (grouping %s, decimal %s): no single digit pattern wired by %s matches the whole literal(s) %s: the '
+                          'percentage is cut at a grouping mark' % (code, show(th), show(dec), ecls.name, miss), r.line)
+    # controls: the interpreter on a digit parser that counts the sign in the distance (today's defect shape) and membership
+    ctl_attrs = {'self.config.decimal_separator_char': '.', 'self.config.non_decimal_separator_char': ',',
+                 'self.config.is_multi_decimal_separator_culture': True, 'self.' + variant_attr: False, 'sys.maxsize': _sys.maxsize}
+    from ..index import Cls
+    ctl = Cls(bnp.mod, ast.parse(
+        "class P:\n    def v(self, s, power):\n        t = Decimal(0)\n        neg = False\n        for i, c in enumerate(s):\n"
+        "            if c.isdigit():\n                t = t * 10 + Decimal(c)\n            elif c == '-':\n                neg = True\n"
+        "            elif c == ',' and i > 3:\n                return Decimal(-1)\n        return t if not neg else t * -1\n").body[0])
+    a = DigitInterp(idx, ctl, 'control', ctl_attrs, ev).call(ctl.methods['v'], ['123,456', 1])
+    b = DigitInterp(idx, ctl, 'control', ctl_attrs, ev).call(ctl.methods['v'], ['-123,456', 1])
+    chk.control('C03.sign-invariance', a == Decimal(123456) and b != -a)
+    chk.control('C03.digital-value', a == Decimal(123456) and Decimal('123.456') != a)
+    t = rx.parse(bvals['IntegerRegexDefinition'].fill('\\b', _rx_escape('.')))
+    chk.control('C03.grouped', rx.matches(t, '12.345.678') and not rx.matches(t, '12,345,678'))
+    t = rx.parse('(?<!%|\\d)\\d+([\\.．]\\d+)?(\\s*)[％%](?!\\d)')
+    chk.control('C03.grouped.percent', rx.matches(t, '234%') and not rx.matches(t, '1,234%'))
+
+
+_run_before_digit_parser = run
+
+
+def run(chk):       # noqa: F811
+    _run_before_digit_parser(chk)
+    rule_digit_parser(chk)
